@@ -120,3 +120,13 @@ def c04(F, R, tier):
 def c17(F, R, tier):
     import c17 as mod
     mod.check(F, R)
+
+
+@prop("C13",
+      technique="static: writer tables and write-set/pairing rules on the typed HIR of the standardizer; writer/reader prefix-set agreement",
+      explanation="Decides (T-BOUNDROWS) per Real/NonNegativeReal arm: a finite min gives a GreaterOrEqual row and a finite max a LessOrEqual row, each guarded by its own finiteness test, with coefficient 1.0 at the variable's own index, no row for the default range; (W-PUSHPAIR) in the free-variable loop every container (variables, each constraint, objective) receives exactly two unconditional appends (+c,-c)/($p,$m) in that order and the four removals use the same index list; (T-SLACK) <= gets +1.0 named $sl_, >= gets -1.0 named $su_, = nothing, strict comparisons are rejected, total_variables is bumped per column; (T-FLIP) Max negates the objective and sets the flip flag, the offset is never negated, a negated rhs negates all coefficients; (S-SPLIT) prefixes written by the standardizer/two-phase start equal the prefixes the tableau read-back understands; (SIGN-SPLIT) the rhs normalisation uses an exact sign test. NOT decided: point-wise equivalence of the two feasible sets and objective values.")
+def c13(F, R, tier):
+    import c13 as mod
+    mod.check(F, R)
+    import c04
+    c04.tableau_readback(F, R)
